@@ -23,7 +23,7 @@ ASSUMPTIONS = [
 def queries(tier):
     qs = []
 
-    def add(mode, ncls, checked, mask, prior, attempts, sat=None, timeout=900, indirect=0):
+    def add(mode, ncls, checked, mask, prior, attempts, sat=None, timeout=1800, indirect=0):
         hc = 16 if ncls <= 1 else 32 if ncls <= 3 else 64
         nm = ('lookup_unregistered' if mode == 2 else 'publish') + '_%s%s_n%d_ids%d_prior%d_a%d' % ('checked' if checked else 'fast', '_indirect' if indirect else '', ncls, mask, prior, attempts)
         qs.append(Query(nm, 'c05_hash.cpp',
